@@ -133,6 +133,10 @@ Proof.
   intros. unfold meaning. apply eval_forms_ext. intros f. apply deftab_order_independent; auto.
 Qed.
 
+Lemma prog_no_fmak : forall cid es mains cmp k, no_fmak (prog cid es mains cmp k) = true.
+Proof.
+  intros. unfold prog. simpl. destruct cmp; simpl; induction k; simpl; auto.
+Qed.
 Lemma osim_all : forall xs l, Forall2 osim xs l -> Forall (fun x => comparable (fst x) = true) xs -> l = xs.
 Proof.
   induction xs as [|x xs IH]; intros l F C; inversion F as [|? y ? l' [O _] F']; subst; auto.
@@ -162,11 +166,11 @@ Proof.
   split.
   - apply osim_all; [|apply expected_comparable; auto]. unfold expected.
     rewrite <- (program_meaning_S n es mains ds D PL NE s cid cmp k).
-    apply history_refines_from; auto.
+    apply history_refines_from; auto. apply prog_no_fmak.
   - apply osim_all; [|apply expected_comparable; auto]. unfold expected.
     rewrite (program_order_S n ds ds' mains _ _ P ND).
     rewrite <- (program_meaning_S n es' mains ds' D' PL NE s cid' cmp' k').
-    apply history_refines_from; auto.
+    apply history_refines_from; auto. apply prog_no_fmak.
 Qed.
 (* from the empty state *)
 Corollary program_meaning_init : forall n es es' ds ds' mains cid cid' cmp cmp' k k',
